@@ -52,6 +52,9 @@ typedef struct EbObjectWrapper {
     // next_ptr - a pointer to a different EbObjectWrapper.  Used
     //   only in the implemenation of a single-linked Fifo.
     struct EbObjectWrapper *next_ptr;
+#ifdef SVT_AV1_VERIF
+    uint32_t verif_index; // position in wrapper_ptr_pool
+#endif
 } EbObjectWrapper;
 
 /*********************************************************************
@@ -85,6 +88,9 @@ typedef struct EbFifo {
     // queue_ptr - pointer to MuxingQueue that the EbFifo is
     //   associated with.
     struct EbMuxingQueue *queue_ptr;
+#ifdef SVT_AV1_VERIF
+    uint32_t verif_index; // position in process_fifo_ptr_array
+#endif
 } EbFifo;
 
 /*********************************************************************
@@ -109,6 +115,10 @@ typedef struct EbMuxingQueue {
     EbCircularBuffer *process_queue;
     uint32_t          process_total_count;
     EbFifo **         process_fifo_ptr_array;
+#ifdef SVT_AV1_VERIF
+    const void *verif_res; // owning EbSystemResource
+    uint32_t    verif_qid; // 0 = empty queue, 1 = full queue
+#endif
 } EbMuxingQueue;
 
 /*********************************************************************
